@@ -841,7 +841,9 @@ func RunDiffProgram(p *Program) *Result {
 				bad = ws
 			}
 			v := viol("C13.deviates."+s.Op, "C13", "only the %s backend deviates from the shared contract at this step: %s", bad.Cfg.Backend, bad.Res.Violations[len(bad.Res.Violations)-1].String())
-			v.Loc = "diff/" + s.Op + "/" + bad.Cfg.Backend
+			// the location names the contract clause the backend broke, so that a
+			// recorded finding covers this deviation and no other
+			v.Loc = "diff/" + s.Op + "/" + bad.Cfg.Backend + "<-" + bad.Res.Violations[len(bad.Res.Violations)-1].Signature()
 			res.Violations = append(res.Violations, v)
 			res.logf("  VIOLATION %s", v.String())
 		}
